@@ -13,6 +13,7 @@ from vlib.listsem import (
     draw_count,
     draw_name_or_absent,
     draw_pred,
+    draw_resub,
     draw_src,
     draw_sub,
     dval,
@@ -42,6 +43,10 @@ RULE = (
     "recorded trace must equal it exactly (values by type-tagged canonical form, order, ticks, terminal). "
     "Non-trivial: the expected outputs are non-empty and differ from the input list, or a boundary class (b:*: count "
     "0/=len/>len, constant predicate, short-circuit hit/miss, default used, all-duplicates, notification terminal) is hit. "
+    "In about a third of the cold/sync cases the same built observable is subscribed a second time (after termination, "
+    "overlapping at a later tick, or right after disposing the first subscription early: the disposed probe must hold a "
+    "prefix of its expected trace containing everything before the dispose tick) and the same oracle, shifted to the "
+    "second subscribe tick, is applied to the second probe (signature suffix :2nd-subscription). "
     "Distinct = distinct case JSON."
 )
 ASSUMPTIONS = [
@@ -475,7 +480,11 @@ def _cases(draw, max_len, forms=tuple(FORMS)):
     if form == "pluck":
         args = {"key": key}
     sub = draw_sub(draw, src)
-    return {"form": form, "args": args, "sub": sub, "src": src}
+    case = {"form": form, "args": args, "sub": sub, "src": src}
+    rs = draw_resub(draw, src)
+    if rs is not None:
+        case["resub"] = rs
+    return case
 
 
 def _enum(tier):
